@@ -408,6 +408,10 @@ func propC03(c *Check) {
 	ruleR03_5(c)
 	ruleR03_6(c)
 	ruleR03_7(c)
+	// readers are fenced from half-applied commits by the wait in oracle.readTs
+	ruleR01_1(c)
+	// a request (transaction) is written to one WAL
+	ruleR08_9(c)
 }
 
 // ---- C04 ----
